@@ -198,13 +198,19 @@ impl<'a, 'b> G<'a, 'b> {
         let via = match (shadow_kind.is_some(), self.t.choose(3)) {
             (false, 1) => {
                 if g_shadow {
-                    // a local `_G` table carries its own FLAG of kind Num
+                    // a local `_G` table carries its own FLAG (a number, or an object read through a prefix)
+                    if self.shadowed("_G") == Some(VKind::Obj) && self.t.bool(128) {
+                        return format!("_G.{}.k", NAME);
+                    }
                     return format!("_G.{}", NAME);
                 }
                 format!("_G.{}", NAME)
             }
             (false, 2) => {
                 if g_shadow {
+                    if self.shadowed("_G") == Some(VKind::Obj) && self.t.bool(160) {
+                        return if self.t.bool(128) { format!("_G[\"{}\"].k", NAME) } else { format!("_G[\"{}\"][\"name\"]", NAME) };
+                    }
                     return format!("_G[\"{}\"]", NAME);
                 }
                 format!("_G[\"{}\"]", NAME)
@@ -486,7 +492,14 @@ impl<'a, 'b> G<'a, 'b> {
                 };
                 (NAME, format!("local {} = {}", NAME, v), k)
             }
-            3 => ("_G", format!("local _G = {{ {} = 5 }}", NAME), VKind::Num),
+            3 => {
+                if self.t.bool(110) {
+                    // an object-valued field, so that `_G["FLAG"]` of the LOCAL table can stand in prefix position
+                    ("_G", format!("local _G = {{ {} = {{ k = \"g-local\", name = 8 }} }}", NAME), VKind::Obj)
+                } else {
+                    ("_G", format!("local _G = {{ {} = 5 }}", NAME), VKind::Num)
+                }
+            }
             4 => ("select", "local select = function(...) emit(\"local-select\") return ... end".into(), VKind::Nil),
             _ => ("assert", "local function assert(...) emit(\"local-fn-assert\", ...) return ... end".into(), VKind::Nil),
         };
